@@ -48,7 +48,7 @@ package staticfiles
 //@   loop 4 invariant d == statOf(f) && !fs.IsHidden(d) && !d.IsDir()
 //@   loop 5 invariant d == statOf(f) && !fs.IsHidden(d) && !d.IsDir() && !accepted
 
-//@ unit is_hidden frames=on props=C02 filter=`staticfiles\.FileServer\)\.IsHidden$`
+//@ unit is_hidden frames=on props=C02,C03 filter=`staticfiles\.FileServer\)\.IsHidden$`
 //@ // A file is hidden exactly when it is the same file as what is AT one of the hide-list paths NOW: every call looks each
 //@ // path up in the file system again (ghost clock `opens`; fileAt/openOK are what Open returns at that moment), so a hidden
 //@ // file that was replaced on disk (new inode) stays hidden. A remembered FileInfo cannot satisfy this.
